@@ -286,8 +286,11 @@ def common_sizes(path, names):
         e = elf.Elf(path)
     except Exception:
         return {}
-    g = e.global_defs()
-    return {n: g[n].size for n in names if n in g}
+    out = {}
+    for sy in e.symtab():
+        if sy.name in names and sy.defined and sy.type in (elf.STT_OBJECT, elf.STT_COMMON, elf.STT_NOTYPE):
+            out.setdefault(sy.name, sy.size)
+    return out
 
 
 def name_kinds(case, nm, loaded):
@@ -299,15 +302,17 @@ def name_kinds(case, nm, loaded):
     return "+".join(sorted(ks)) or "undefined"
 
 
-def tag_kind(case, t):
+def tag_kind(case, t, nm=None):
     if t == -1:
         return "null"
     if t == 0:
-        return "common"
+        viss = sorted({d["vis"] for u in case["units"] for k, d in u["defs"].items() if k == nm and d["st"] == "common" and d["vis"] != "default"})
+        return "common" + (f"({'+'.join(viss)})" if viss else "")
     for u in case["units"]:
-        for nm, d in u["defs"].items():
+        for k, d in u["defs"].items():
             if d["tag"] == t:
-                return ("shared-" if u["kind"] == "lib" else "") + d["st"] + ("(lazy-member)" if u["kind"] == "mem" and not u["forced"] else "")
+                return (("shared-" if u["kind"] == "lib" else "") + d["st"] + ("" if d["vis"] == "default" else f"({d['vis']})")
+                        + ("(lazy-member)" if u["kind"] == "mem" and not u["forced"] else ""))
     return "garbage"
 
 
@@ -343,6 +348,9 @@ def one_case(ctx, ci, forced=None):
         outs[which] = out
     ld, lld = results["ld"], results["lld"]
     # ---- calibration -----------------------------------------------------------------------------
+    if isinstance(exp, tuple) and exp[1] == "undefined-in-shared-library":
+        ctx.inconclusive("excluded: the only undefined reference comes from a shared library (statement is about the executable's objects)")
+        return
     if isinstance(exp, tuple):
         if ld[0] != "reject":
             ctx.inconclusive(f"model predicts rejection ({exp[1]}) but GNU ld links")
@@ -422,8 +430,9 @@ def one_case(ctx, ci, forced=None):
                 nm = label.split(":")[1]
                 u = case["units"][ui]
                 typ = next(n["typ"] for n in case["names"] if n["name"] == nm)
-                sigs.setdefault(f"binding:{name_kinds(case, nm, exp['loaded'])}:{typ}:viewer={u['kind']}:expected={tag_kind(case, a) if a is not None else 'no-line'}:"
-                                f"wild={tag_kind(case, b) if b is not None else 'no-line'}", label)
+                ka = tag_kind(case, a, nm) if a is not None else "no-line"
+                kb = tag_kind(case, b, nm) if b is not None else "no-line"
+                sigs.setdefault(f"binding:{ka}-vs-{kb}:{typ}:wild={kb}" + (":viewer=shared-library" if u["kind"] == "lib" else ""), label)
             for sig, label in sigs.items():
                 LIM.violation(sig, f"{label}: model/ld/lld observe {exp['lines'].get(label)}, wild ({tag}) program observes {t.get(label)}",
                               case=ci, files=rec.files(), info={"expected": exp["lines"], "wild": t, "schedule": tag})
